@@ -1,5 +1,5 @@
 (* Property C14 -- statements only; every proof is `exact <lemma from Proofs/>`. *)
-From Erbium Require Import Lib.Base Model.DnsName Proofs.DnsName.
+From Erbium Require Import Lib.Base Model.DnsName Model.DnsCodec Proofs.DnsName Proofs.DnsRecord.
 
 (* Names, with the dictionary (suffix tree) invariant [tree_ok]: writing a
    well-formed name at the end of a buffer whose dictionary is valid never
@@ -100,3 +100,30 @@ Check C14_roundtrip_partial : forall b off n nxt buf kids,
     Forall (tree_ok (buf ++ e) []) kids' /\
     get_domain (buf ++ e) (lenN buf) = Ok (n, lenN buf + lenN e).
 Print Assumptions C14_roundtrip_partial.
+
+(* Record level, byte exact, for the kinds whose data is one name (CNAME, NS,
+   PTR): owner name and data name are both compressed against the dictionary
+   (the data name at its final offset, after type/class/ttl/rdlength); get_rr
+   on the final buffer returns the record and consumes exactly its octets; the
+   dictionary stays valid.  The other eight kinds follow the same pattern
+   (get_name_written + get_u16_be16/get_u32_be32) and are not yet done. *)
+Theorem C14_rr_roundtrip_partial : forall buf kids r d,
+  0 < lenN buf -> Forall (tree_ok buf []) kids ->
+  wf_name (r_name r) = true -> wf_name d = true ->
+  r_class r < 65536 -> r_ttl r < 4294967296 ->
+  (r_type r = T_CNAME /\ r_data r = RCName d \/ r_type r = T_NS /\ r_data r = RNs d \/
+   r_type r = T_PTR /\ r_data r = RPtr d) ->
+  exists b kids', push_rr (lenN buf) kids r = Ok (b, kids') /\
+    Forall (tree_ok (buf ++ b) []) kids' /\
+    get_rr (buf ++ b) (b, lenN buf) = Ok (r, ([], lenN buf + lenN b)).
+Proof. exact rr_one_name_roundtrip. Qed.
+Check C14_rr_roundtrip_partial : forall buf kids r d,
+  0 < lenN buf -> Forall (tree_ok buf []) kids ->
+  wf_name (r_name r) = true -> wf_name d = true ->
+  r_class r < 65536 -> r_ttl r < 4294967296 ->
+  (r_type r = T_CNAME /\ r_data r = RCName d \/ r_type r = T_NS /\ r_data r = RNs d \/
+   r_type r = T_PTR /\ r_data r = RPtr d) ->
+  exists b kids', push_rr (lenN buf) kids r = Ok (b, kids') /\
+    Forall (tree_ok (buf ++ b) []) kids' /\
+    get_rr (buf ++ b) (b, lenN buf) = Ok (r, ([], lenN buf + lenN b)).
+Print Assumptions C14_rr_roundtrip_partial.
